@@ -29,7 +29,7 @@ def run(prog, rep):
     aspects = {("sum", "result"): "C07.by-label", ("cast", "result"): "C07.by-label", ("shares", "result"): "C07.by-label",
                ("cumsum", "result"): "C07.by-label", ("sum", "raises"): "C07.refusals", ("cast", "raises"): "C07.refusals",
                ("shares", "raises"): "C07.refusals", ("cumsum", "raises"): "C07.refusals"}
-    for a in ("sum_to", "sum_over", "cast_to", "cast_values_to", "get_shares_over", "cumsum", "_get_dim_letter"):
+    for a in ("sum_to", "sum_over", "cast_to", "cast_values_to", "get_shares_over", "cumsum"):
         prog.method("FlodymArray", a)
     run_array_property(prog, rep, "C07", ["reduce", "reduce@uniform"], aspects)
     rep.rules["C07.by-label"]["floor"] = 500
